@@ -2,16 +2,17 @@
 from __future__ import annotations
 
 import concurrent.futures
-import os
 import pathlib
 import re
 import shutil
 import sys
+import time
 from typing import Any, Dict, List, Optional, Sequence, Tuple
 
 from hypothesis import strategies as st
 
 from vlib import c20_gen, c20_parse, runner, sut
+from vlib.c20_gen import fragment_class
 from vlib.c20_parse import Diag
 
 PID = "C20"
@@ -21,18 +22,21 @@ RULE = (
     "constrained primitive, enumeration, enumeration literal, property, constant, verification function with "
     ":param:/:returns:) made of summary, remark paragraphs, bullet lists, notes, ``literals``, *emphasis*, roles, URLs and "
     ":constraint X: fields, carrying fragments such as \" ' \"\"\" ''' \\ \\u */ /* // < & --> ]]> </summary> {@link x} ${x} ` "
-    "(also as the last characters of a description); invariant messages, enumeration literal values, string constants "
-    "and string sets with quote/backslash/template/format fragments. Every fragment is preceded by a unique marker "
-    "word. 50% of the models avoid the fragment classes of already known defects (counted) so that the search goes on "
-    "behind them. Only models accepted by the front end count; per target main.execute must succeed (else counted as "
-    "excluded, belongs to C02). Oracle per generated file: Python ast/compile; TypeScript node-22 parser "
-    "(module.stripTypeScriptTypes transform); Java JDK parser (JavacTask.parse via drivers/ParseOnly.java); C++ "
-    "g++ -std=c++17 -fsyntax-only on a translation unit including all generated headers plus the model-dependent "
-    ".cpp files (quick: 6 models, thorough: every 4th; only lexer/parser diagnostics count, others are counted as "
-    "inconclusive) and the rule that a // comment line must not end in a backslash followed by a non-comment line; "
-    "JSON json.loads; XSD xml.etree; C# and Go spec-derived lexers; C# /// blocks parsed as XML fragments. "
-    "Non-trivial = accepted model of which at least one marker was found in a generated file of a target that "
-    "succeeded; distinct by model text."
+    "(also as the last characters of a description and inside constraint identifiers); invariant messages, enumeration "
+    "literal values, string constants and string sets with quote/backslash/template/format fragments. Every fragment is "
+    "preceded by a unique marker word. 60% 'single' models: all description fragments from one fragment class and one "
+    "form, all value fragments from one class (precise attribution); 40% 'mixed' models: all classes together except "
+    "the triggers of the defects already found, so that the search goes on behind them. Only models accepted by the "
+    "front end count; per target main.execute must succeed (else counted as excluded, belongs to C02). Oracle per "
+    "generated file: Python compile(); TypeScript node-22 parser (module.stripTypeScriptTypes transform); Java JDK "
+    "parser (JavacTask.parse via drivers/ParseOnly.java); C++ g++ -std=c++17 -fsyntax-only on a translation unit "
+    "including all generated headers plus the model-dependent .cpp files (quick: 6 models, thorough: every 4th; only "
+    "lexer/parser diagnostics count, others are counted as inconclusive) and the rule that a // comment line must not "
+    "end in a backslash followed by a non-comment line; JSON json.loads; XSD xml.etree; C# and Go spec-derived lexers; "
+    "C# /// blocks parsed as XML fragments. A file that fails is re-generated from the same model with every fragment "
+    "replaced by '~': still failing => structural defect (bucket by diagnostic and code line), else text-caused "
+    "(bucket target:file:text-kind:fragment-class). Non-trivial = accepted model of which at least one marker was "
+    "found in a generated file of a target that succeeded; distinct by model text."
 )
 ASSUMPTIONS = [
     "C# and Go: no compiler/parser is installed; the check is LEXICAL well-formedness only (comments, regular/verbatim/"
@@ -44,8 +48,8 @@ ASSUMPTIONS = [
     "C++: a // line ending in backslash whose next line is not a comment is a violation (phase-2 line splicing swallows code) "
     "even when the remaining text still parses",
     "control characters and U+0085/U+2028/U+2029 inside literals are the domain of C19 and are not generated here",
-    "a failure is attributed to the nearest marker at or before the reported line; the bucket is "
-    "target:file-kind:text-kind:fragment-class (diagnostic texts vary with what follows and are kept in the message only)",
+    "only the first diagnostic of a file is used (later ones are cascades); text-caused failures of 'mixed' models are "
+    "attributed to the nearest marker at or before the reported line",
     "a target that reports an error (rc != 0) or crashes on an accepted model is out of this property's domain (C02) and is counted",
 ]
 
@@ -57,64 +61,38 @@ CPP_QUICK_TUS = ["src/constants.cpp", "src/verification.cpp", "src/stringificati
                  "src/types.cpp"]
 
 _MARKER_RE = re.compile(r"mk(\d+)q")
-
-
-def fragment_class(fragment: str, form: str) -> str:
-    f = fragment
-    if form == "url":
-        return "url"
-    if "*/" in f:
-        return "comment-close"
-    if f.startswith("\\u") or "\\u" in f:
-        return "backslash-u"
-    if "\\" in f or "??/" in f:
-        return "backslash"
-    if '"' in f:
-        return "double-quote"
-    if "'" in f:
-        return "single-quote"
-    if "`" in f or "${" in f:
-        return "template"
-    if "<" in f or "&" in f or ">" in f:
-        return "markup"
-    if "@" in f:
-        return "at"
-    if "{" in f or "}" in f:
-        return "brace"
-    if "/" in f:
-        return "slash"
-    if f.strip() == "" or f == " ":
-        return "blank"
-    if len(f) >= 60:
-        return "long-word"
-    return "other"
+_VALUE_KINDS = ("invariant-message", "enumeration-literal-value", "string-constant", "string-set-constant")
 
 
 def where_group(where: str) -> str:
-    if where.endswith("-doc"):
-        return "description"
-    return where
+    return "description" if where.endswith("-doc") else where
 
 
-# Fragment classes of the defects found so far (see /verif/proposed_fixes/C20-*.diff and known_findings.jsonl); half of
-# the models are generated without them so that the search continues behind these defects.
-def is_known_trigger(fragment: str, where: str, form: str) -> bool:
+# (text kind, fragment class[+form]) of the defects found so far: /verif/proposed_fixes/C20-*.diff, known_findings.jsonl.
+# 'mixed' models are generated without them.
+KNOWN_TRIGGERS = set()  # type: set
+
+
+def trigger_key(fragment: str, where: str, form: str) -> Tuple[str, str]:
     fc = fragment_class(fragment, form)
-    grp = where_group(where)
-    if grp == "description":
-        return fc in KNOWN_DESCRIPTION_CLASSES or (form == "text-at-end" and fc in KNOWN_DESCRIPTION_END_CLASSES)
-    return (grp, fc) in KNOWN_VALUE_CLASSES
+    if form in ("text-at-end", "literal", "constraint-id"):
+        fc += "@" + form
+    return where_group(where), fc
 
 
-KNOWN_DESCRIPTION_CLASSES = set()  # type: set
-KNOWN_DESCRIPTION_END_CLASSES = set()  # type: set
-KNOWN_VALUE_CLASSES = set()  # type: set
+def is_known_trigger(fragment: str, where: str, form: str) -> bool:
+    grp, fc = trigger_key(fragment, where, form)
+    return (grp, fc) in KNOWN_TRIGGERS or (grp, fc.split("@")[0] + "@*") in KNOWN_TRIGGERS
 
 
 @st.composite
 def cases(draw: Any) -> Dict[str, Any]:
-    avoid = is_known_trigger if draw(st.booleans()) else None
-    ts = draw(c20_gen.text_specs(max_classes=4, adversarial=draw(st.sampled_from([0.25, 0.45, 0.6])), avoid=avoid))
+    single = draw(st.integers(0, 4)) < 3
+    adversarial = draw(st.sampled_from([0.25, 0.45, 0.6]))
+    if single:
+        ts = draw(c20_gen.text_specs(max_classes=4, adversarial=adversarial, single=True))
+    else:
+        ts = draw(c20_gen.text_specs(max_classes=4, adversarial=adversarial, avoid=is_known_trigger))
     return {"ts": ts}
 
 
@@ -129,51 +107,36 @@ def list_files(root: pathlib.Path, exts: Sequence[str]) -> List[str]:
 def file_kind(target: str, rel: str) -> str:
     p = pathlib.PurePosixPath(rel)
     if target == "java":
-        return p.parent.name + "/*.java"
+        if "test" in p.parts:
+            return "tests/" + p.name
+        if "types" in p.parts:
+            return "types/*.java"
+        return p.name
     if "test" in p.parts[:-1] or "tests" in p.parts[:-1] or p.name.endswith("_test.go") or ".Tests" in rel:
         return "tests/" + p.name
     return p.name
 
 
-def attribute(root: pathlib.Path, diag: Diag, plants: Dict[str, List[str]]) -> Optional[List[str]]:
-    """The plant whose marker is nearest at or before the reported line (same file)."""
-    path = root / diag.file
-    if diag.line <= 0 or not path.is_file():
-        return None
-    try:
-        lines = path.read_text(encoding="utf-8", errors="replace").split("\n")
-    except OSError:
-        return None
-    hi = min(len(lines), diag.line + 1)
-    for idx in range(hi - 1, max(-1, hi - 14), -1):
-        found = _MARKER_RE.findall(lines[idx])
-        if found:
-            for num in reversed(found):
-                pl = plants.get(f"mk{num}q")
-                if pl is not None:
-                    return pl
-    return None
+_KEEP_WORDS = {"return", "const", "static", "final", "public", "private", "class", "enum", "interface", "if", "else",
+               "for", "while", "new", "import", "package", "namespace", "struct", "func", "def", "var", "let", "export",
+               "function", "throw", "case", "switch", "default", "void", "extern", "template", "typename", "using"}
 
 
-def bucket_of(target: str, root: pathlib.Path, diag: Diag, plants: Dict[str, List[str]]) -> str:
-    kind = file_kind(target, diag.file)
-    pl = attribute(root, diag, plants)
-    if pl is None:
-        return f"{target}:{kind}:unattributed:{diag.code}"
-    marker, fragment, where, form = pl
-    fc = fragment_class(fragment, form)
-    if form == "text-at-end":
-        fc += "-at-end"
-    if form == "literal":
-        fc += "-in-literal"
-    return f"{target}:{kind}:{where_group(where)}:{fc}"
+def normalize_code_line(line: str) -> str:
+    line = re.sub(r'"(?:[^"\\]|\\.)*"', '""', line.strip())
+    line = re.sub(r"[A-Za-z_][A-Za-z0-9_]*", lambda m: m.group(0) if m.group(0) in _KEEP_WORDS else "x", line)
+    line = re.sub(r"\d+", "0", line)
+    return re.sub(r"\s+", " ", line)[:48]
 
 
 def check_target_output(target: str, root: pathlib.Path, cpp_level: int, scratch: pathlib.Path,
-                        notes: Dict[str, int]) -> List[Diag]:
+                        notes: Dict[str, Any], only: Optional[Sequence[str]] = None) -> List[Diag]:
     diags = []  # type: List[Diag]
     rels = list_files(root, TARGET_EXT[target])
-    notes[f"files:{target}"] = notes.get(f"files:{target}", 0) + len(rels)
+    if only is not None:
+        rels = [r for r in rels if r in only]
+    else:
+        notes[f"files:{target}"] = notes.get(f"files:{target}", 0) + len(rels)
     if target == "python":
         for rel in rels:
             diags.extend(c20_parse.check_python(root / rel, rel))
@@ -197,7 +160,8 @@ def check_target_output(target: str, root: pathlib.Path, cpp_level: int, scratch
                 diags.extend(c20_parse.lex_csharp(src, rel))
                 d2, nblocks = c20_parse.csharp_doc_comments(src, rel)
                 diags.extend(d2)
-                notes["csharp-doc-comment-blocks"] = notes.get("csharp-doc-comment-blocks", 0) + nblocks
+                if only is None:
+                    notes["csharp-doc-comment-blocks"] = notes.get("csharp-doc-comment-blocks", 0) + nblocks
     elif target == "golang":
         for rel in rels:
             src, d = c20_parse.read_text_strict(root / rel, rel)
@@ -208,31 +172,97 @@ def check_target_output(target: str, root: pathlib.Path, cpp_level: int, scratch
         for rel in rels:
             diags.extend(c20_parse.cpp_line_comment_splices(root / rel, rel))
         if cpp_level > 0:
-            headers = [r for r in rels if r.startswith("include/") and r.endswith(".hpp")]
+            all_rels = list_files(root, TARGET_EXT[target])
+            headers = [r for r in all_rels if r.startswith("include/") and r.endswith(".hpp")]
             all_headers = root / "src" / "verif_all_headers.cpp"
             all_headers.write_text("".join(f'#include "{h[len("include/"):]}"\n' for h in headers), encoding="utf-8")
             tus = ["src/verif_all_headers.cpp"] + [t for t in CPP_QUICK_TUS if (root / t).is_file()]
             if cpp_level > 1:
-                tus += [r for r in rels if r.endswith(".cpp") and r not in tus and r != "src/common.cpp"]
-            workers = 6 if cpp_level == 1 else 2
+                tus += [r for r in all_rels if r.endswith(".cpp") and r not in tus and r != "src/common.cpp"]
+            workers = 6 if cpp_level == 1 else 3
             with concurrent.futures.ThreadPoolExecutor(max_workers=workers) as pool:
                 results = list(pool.map(lambda tu: c20_parse.check_cpp_tu(root, tu), tus))
             seen = set()
             for syntax, other in results:
                 for dg in syntax:
                     key = (dg.file, dg.line, dg.code)
-                    if key not in seen:
+                    if key not in seen and (only is None or dg.file in only):
                         seen.add(key)
                         diags.append(dg)
-                notes["cpp-inconclusive-diagnostics"] = notes.get("cpp-inconclusive-diagnostics", 0) + len(other)
-                if other:
-                    notes.setdefault("cpp-inconclusive-sample", other[0])  # type: ignore
-            notes["cpp-translation-units-compiled"] = notes.get("cpp-translation-units-compiled", 0) + len(tus)
+                if only is None:
+                    notes["cpp-inconclusive-diagnostics"] = notes.get("cpp-inconclusive-diagnostics", 0) + len(other)
+                    if other:
+                        notes.setdefault("cpp-inconclusive-sample", other[0])
+            if only is None:
+                notes["cpp-translation-units-compiled"] = notes.get("cpp-translation-units-compiled", 0) + len(tus)
     return diags
 
 
-def evaluate(case: Dict[str, Any], base: pathlib.Path, notes: Dict[str, int]) -> Dict[str, Any]:
+def first_per_file(diags: List[Diag]) -> List[Diag]:
+    best = {}  # type: Dict[str, Diag]
+    for dg in diags:
+        prev = best.get(dg.file)
+        if prev is None or (dg.line or 10 ** 9) < (prev.line or 10 ** 9):
+            best[dg.file] = dg
+    return [best[k] for k in sorted(best)]
+
+
+def nearest_plant(root: pathlib.Path, diag: Diag, plants: Dict[str, List[str]], window: int = 40) -> Optional[List[str]]:
+    """The plant whose marker is nearest at or before the reported line (same file)."""
+    path = root / diag.file
+    if not path.is_file():
+        return None
+    try:
+        lines = path.read_text(encoding="utf-8", errors="replace").split("\n")
+    except OSError:
+        return None
+    if diag.line <= 0:
+        return None
+    hi = min(len(lines), diag.line + 1)
+    for idx in range(hi - 1, max(-1, hi - window), -1):
+        for num in reversed(_MARKER_RE.findall(lines[idx])):
+            pl = plants.get(f"mk{num}q")
+            if pl is not None:
+                return pl
+    return None
+
+
+def text_bucket(target: str, root: pathlib.Path, diag: Diag, plants: Dict[str, List[str]], mode: Dict[str, Any]) -> str:
+    kind = file_kind(target, diag.file)
+    pl = nearest_plant(root, diag, plants)
+    if mode.get("mode") == "single":
+        group = None
+        if pl is not None:
+            group = where_group(pl[2])
+        else:
+            try:
+                blob = (root / diag.file).read_text(encoding="utf-8", errors="replace")
+            except OSError:
+                blob = ""
+            groups = {where_group(plants[f"mk{n}q"][2]) for n in _MARKER_RE.findall(blob) if f"mk{n}q" in plants}
+            if len(groups) == 1:
+                group = groups.pop()
+            elif groups and all(g != "description" for g in groups):
+                group = "value"
+        if group == "description":
+            fc = str(mode.get("doc_class"))
+            form = mode.get("doc_form")
+            if form in ("text-at-end", "literal", "constraint-id", "emphasis"):
+                fc += "@" + str(form)
+            return f"{target}:{kind}:description:{fc}"
+        if group is not None:
+            return f"{target}:{kind}:{group}:{mode.get('value_class')}"
+        return f"{target}:{kind}:text:{mode.get('doc_class')}@{mode.get('doc_form')}|{mode.get('value_class')}"
+    if pl is None:
+        return f"{target}:{kind}:text:unattributed:{diag.code}"
+    grp, fc = trigger_key(pl[1], pl[2], pl[3])
+    return f"{target}:{kind}:{grp}:{fc}"
+
+
+def evaluate(case: Dict[str, Any], base: pathlib.Path, notes: Dict[str, Any]) -> Dict[str, Any]:
     text = case["text"]
+    neutral_text = case.get("neutral_text")
+    mode = case.get("mode") if isinstance(case.get("mode"), dict) else {}
     plants = {p[0]: list(p) for p in case.get("plants", []) if isinstance(p, (list, tuple)) and len(p) == 4}
     cpp_level = int(case.get("cpp", 0) or 0)
     targets = [t for t in (case.get("targets") or sut.TARGETS) if t in sut.TARGETS]
@@ -249,6 +279,7 @@ def evaluate(case: Dict[str, Any], base: pathlib.Path, notes: Dict[str, int]) ->
     res["accepted"] = True
     for target in targets:
         d = None  # type: Optional[pathlib.Path]
+        dn = None  # type: Optional[pathlib.Path]
         try:
             try:
                 rc, _, errtxt, d = sut.generate(text, target, base, keep=True)
@@ -266,7 +297,8 @@ def evaluate(case: Dict[str, Any], base: pathlib.Path, notes: Dict[str, int]) ->
             assert d is not None
             root = d / "out"
             res["classes"].append(f"{target}:generated")
-            diags = check_target_output(target, root, cpp_level if target == "cpp" else 0, base, notes)
+            level = cpp_level if target == "cpp" else 0
+            diags = first_per_file(check_target_output(target, root, level, base, notes))
             # which markers reached this target's files?
             blob = []
             for rel in list_files(root, TARGET_EXT[target]):
@@ -279,69 +311,108 @@ def evaluate(case: Dict[str, Any], base: pathlib.Path, notes: Dict[str, int]) ->
             if hit:
                 res["classes"].append(f"{target}:marker-reached")
             res["reached"] |= hit
+            if not diags:
+                res["classes"].append(f"{target}:all-files-parse")
+                continue
+            res["classes"].append(f"{target}:some-file-does-not-parse")
+            # structural or text-caused? regenerate with neutral fragments and re-check the failing files
+            neutral_fail = {}  # type: Dict[str, Diag]
+            neutral_ok = False
+            if isinstance(neutral_text, str) and neutral_text != text:
+                try:
+                    rcn, _, _, dn = sut.generate(neutral_text, target, base, keep=True)
+                    if rcn == 0 and dn is not None:
+                        nd = first_per_file(check_target_output(target, dn / "out", level, base, notes,
+                                                                only=[dg.file for dg in diags]))
+                        neutral_fail = {dg.file: dg for dg in nd}
+                        neutral_ok = True
+                except BaseException as e:  # noqa
+                    if type(e).__name__ in ("KeyboardInterrupt", "SystemExit", "MemoryError"):
+                        raise
             seen_buckets = set()
             for dg in diags:
-                b = bucket_of(target, root, dg, plants)
+                kind = file_kind(target, dg.file)
+                if dg.file in neutral_fail or (not neutral_ok and not plants):
+                    nd_ = neutral_fail.get(dg.file, dg)
+                    nroot = (dn / "out") if dn is not None and dg.file in neutral_fail else root
+                    line = ""
+                    try:
+                        lines = (nroot / nd_.file).read_text(encoding="utf-8", errors="replace").split("\n")
+                        if 0 < nd_.line <= len(lines):
+                            line = lines[nd_.line - 1]
+                    except OSError:
+                        pass
+                    b = f"{target}:{kind}:structure:{nd_.code}:{normalize_code_line(line)}"
+                    res["classes"].append(f"{target}:structural-failure")
+                else:
+                    b = text_bucket(target, root, dg, plants, mode)
+                    res["classes"].append(f"{target}:text-caused-failure")
                 if b in seen_buckets:
                     continue
                 seen_buckets.add(b)
                 res["fails"].append((b, f"[{target}] {dg.file}:{dg.line}: {dg.code}: {dg.message}"))
-            if not diags:
-                res["classes"].append(f"{target}:all-files-parse")
-            else:
-                res["classes"].append(f"{target}:some-file-does-not-parse")
         finally:
             if d is not None:
                 shutil.rmtree(d, ignore_errors=True)
+            if dn is not None:
+                shutil.rmtree(dn, ignore_errors=True)
     return res
+
+
+def make_case(ts: c20_gen.TextSpec, cpp_level: int) -> Dict[str, Any]:
+    return {
+        "text": c20_gen.render(ts),
+        "neutral_text": c20_gen.render(ts, neutral=True),
+        "plants": [[p.marker, p.fragment, p.where, p.form] for p in ts.plants],
+        "mode": {"mode": ts.mode, "doc_class": ts.doc_class, "doc_form": ts.doc_form, "value_class": ts.value_class},
+        "cpp": cpp_level,
+    }
 
 
 def shard(ctx: runner.Ctx) -> None:
     n = ctx.n(160, 8000)
     counter = {"i": 0}
     notes = {}  # type: Dict[str, Any]
-    cpp_every = 1 if ctx.quick else 4
 
     def one(c: Dict[str, Any]) -> None:
         ts = c["ts"]  # type: c20_gen.TextSpec
         i = counter["i"]
         counter["i"] += 1
-        text = c20_gen.render(ts)
-        plants = [[p.marker, p.fragment, p.where, p.form] for p in ts.plants]
         if ctx.quick:
             cpp_level = 1 if (i == 0 and ctx.shard < 6) else 0
         else:
-            cpp_level = (2 if i % 40 == 0 else 1) if i % cpp_every == 0 else 0
-        case = {"text": text, "plants": plants, "cpp": cpp_level}
+            cpp_level = (2 if i % 40 == 0 else 1) if i % 4 == 0 else 0
+        case = make_case(ts, cpp_level)
         res = evaluate(case, ctx.scratch, notes)
         for ex in res["excluded"]:
             ctx.exclude(ex)
         classes = list(res["classes"])
         if res["accepted"]:
             classes.append("accepted")
-        wheres = sorted({p.where for p in ts.plants})
-        classes += [f"text:{w}" for w in wheres]
+        classes += sorted({f"text:{p.where}" for p in ts.plants})
         classes += sorted({f"fragment:{fragment_class(p.fragment, p.form)}" for p in ts.plants})
-        if ts.avoided_known:
-            classes.append("known-defect-fragments-avoided")
+        classes += sorted({f"form:{p.form}" for p in ts.plants})
+        classes.append(f"mode:{ts.mode}")
         if cpp_level:
             classes.append(f"cpp-compiled-level-{cpp_level}")
         nt = res["accepted"] and len(res["reached"]) > 0
-        ctx.case(nt, key=text,
-                 sample={"markers_reached": len(res["reached"]), "plants": plants[:12], "outcomes": res["classes"],
-                         "text_head": text[:1200]},
+        ctx.case(nt, key=case["text"],
+                 sample={"mode": case["mode"], "markers_reached": len(res["reached"]), "plants": case["plants"][:10],
+                         "outcomes": res["classes"], "text_head": case["text"][:1200]},
                  classes=classes)
         for b, m in res["fails"]:
-            ctx.fail(b, {"text": text, "plants": plants, "cpp": cpp_level, "targets": [b.split(":")[0]]}, m)
+            fc = dict(case)
+            fc["targets"] = [b.split(":")[0]]
+            ctx.fail(b, fc, m)
 
     runner.hyp_run(cases(), one, n, ctx.seed)
     for k, v in notes.items():
         ctx.notes[k] = v
 
 
-def replay(case: Any) -> List[Tuple[str, str]]:
+def _sanitize(case: Any) -> Optional[Dict[str, Any]]:
     if not isinstance(case, dict) or not isinstance(case.get("text"), str):
-        return []
+        return None
     plants = case.get("plants")
     if not isinstance(plants, list):
         plants = []
@@ -353,12 +424,90 @@ def replay(case: Any) -> List[Tuple[str, str]]:
         cpp = int(case.get("cpp", 0) or 0)
     except (TypeError, ValueError):
         cpp = 0
+    neutral = case.get("neutral_text") if isinstance(case.get("neutral_text"), str) else None
+    mode = case.get("mode") if isinstance(case.get("mode"), dict) else {}
+    return {"text": case["text"], "neutral_text": neutral, "plants": plants, "cpp": cpp, "targets": targets, "mode": mode}
+
+
+def replay(case: Any) -> List[Tuple[str, str]]:
+    c = _sanitize(case)
+    if c is None:
+        return []
     base = runner.make_scratch("c20-replay")
     try:
-        res = evaluate({"text": case["text"], "plants": plants, "cpp": cpp, "targets": targets}, base, {})
+        res = evaluate(c, base, {})
     finally:
         shutil.rmtree(base, ignore_errors=True)
     return list(res["fails"])
+
+
+def shrink(case: Any, bucket: str, budget: float) -> Any:
+    """Delete top-level entities (same line ranges in the text and its neutral twin), then single lines."""
+    c = _sanitize(case)
+    if c is None:
+        return case
+    t_end = time.time() + budget
+    base = runner.make_scratch("c20-shrink")
+    runner.isolate_tmp(base)
+
+    def fails(cand: Dict[str, Any]) -> bool:
+        try:
+            return any(b == bucket for b, _ in evaluate(cand, base, {})["fails"])
+        except Exception:  # noqa
+            return False
+
+    try:
+        lines = c["text"].split("\n")
+        nlines = c["neutral_text"].split("\n") if c["neutral_text"] is not None else None
+        if nlines is not None and len(nlines) != len(lines):
+            nlines = None
+
+        def build(keep: List[bool]) -> Dict[str, Any]:
+            cand = dict(c)
+            cand["text"] = "\n".join(ln for ln, k in zip(lines, keep) if k)
+            cand["neutral_text"] = "\n".join(ln for ln, k in zip(nlines, keep) if k) if nlines is not None else None
+            return cand
+
+        keep = [True] * len(lines)
+        # blocks = runs of lines separated by two empty lines (top-level entities of mmgen.render)
+        blocks = []  # type: List[Tuple[int, int]]
+        start = 0
+        i = 0
+        while i < len(lines):
+            if lines[i] == "" and i + 1 < len(lines) and lines[i + 1] == "":
+                blocks.append((start, i + 2))
+                start = i + 2
+                i += 2
+            else:
+                i += 1
+        blocks.append((start, len(lines)))
+        for lo, hi in reversed(blocks):
+            if time.time() > t_end:
+                break
+            trial = list(keep)
+            for j in range(lo, hi):
+                trial[j] = False
+            if fails(build(trial)):
+                keep = trial
+        # runs of lines (docstring lines, invariants, properties)
+        chunk = 8
+        while chunk >= 1 and time.time() < t_end:
+            idxs = [j for j, k in enumerate(keep) if k]
+            pos = 0
+            while pos < len(idxs) and time.time() < t_end:
+                trial = list(keep)
+                for j in idxs[pos:pos + chunk]:
+                    trial[j] = False
+                if fails(build(trial)):
+                    keep = trial
+                pos += chunk
+            chunk //= 2
+        out = build(keep)
+        used = set(_MARKER_RE.findall(out["text"]))
+        out["plants"] = [p for p in out["plants"] if p[0][2:-1] in used]
+        return out if fails(out) else c
+    finally:
+        shutil.rmtree(base, ignore_errors=True)
 
 
 def health(m: Any, tier: str) -> Any:
